@@ -204,3 +204,170 @@ pub fn record(args: &Args, s: &mut Summary) {
     s.extra.insert("events".into(), json!(out.len()));
     write_ndjson(trace, &out);
 }
+
+// ---------------------------------------------------------------------------
+// SliderEvents!RefStream on REAL-VALUED parameters (off the dyadic lattice): the declarative stream of
+// the specification evaluated in f64.  Where a candidate tick lies within float noise of the 10 ms
+// cut-off (or of the path end) rational and float arithmetic may legitimately disagree: such ticks are
+// allowed to be present or absent.
+
+fn dec(rng: &mut Rng, lo: f64, hi: f64, places: u32) -> f64 {
+    let m = 10f64.powi(places as i32);
+    let n = ((hi - lo) * m) as usize;
+    lo + (rng.below(n.max(1)) as f64) / m
+}
+
+pub fn relations(args: &Args, s: &mut Summary) {
+    let iters = args.opt_usize("iters", 20000);
+    let mut rng = Rng::new(args.seed);
+    let mut buf: Vec<SliderEvent> = Vec::new();
+    for it in 0..iters {
+        let v = match rng.below(4) {
+            0 => *rng.pick(&[0.24, 0.32, 0.51, 0.37, 0.42, 1.4, 0.7, 2.1, 0.35]),
+            1 => dec(&mut rng, 0.05, 5.0, 2),
+            2 => dec(&mut rng, 0.05, 5.0, 4),
+            _ => 100.0 * dec(&mut rng, 0.4, 3.6, 1) / dec(&mut rng, 150.0, 900.0, 0),
+        };
+        let len = match rng.below(6) {
+            0 => dec(&mut rng, 1.0, 1500.0, 1),
+            1 => dec(&mut rng, 1.0, 300.0, 3),
+            2 => (rng.below(600) + 1) as f64,
+            3 => *rng.pick(&[92.4, 83.2, 50.1, 78.7, 94.2, 140.0, 70.0]),
+            4 => 100_000.0 + dec(&mut rng, 0.0, 5000.0, 1),
+            _ => dec(&mut rng, 0.0, 20.0, 2),
+        };
+        let td = match rng.below(8) {
+            0 => 0.0,
+            1 => f64::INFINITY,
+            2 => len * 1.5,
+            3 => *rng.pick(&[30.0, 40.0, 80.0, 45.0, 25.0, 35.0, 17.5]),
+            4 => len / (1 + rng.below(12)) as f64,
+            5 => 100.0 * dec(&mut rng, 0.4, 3.6, 1) / *rng.pick(&[1.0, 2.0, 4.0, 0.5, 3.0, 8.0]),
+            _ => dec(&mut rng, 3.0, 300.0, 2),
+        };
+        // keep the streams finite in practice: at most a few thousand ticks per span
+        let td = if td > 0.0 && td < len.min(100_000.0) / 2000.0 { len.min(100_000.0) / 2000.0 } else { td };
+        let sd = if rng.chance(3, 4) { len.min(100_000.0) / v } else { dec(&mut rng, 0.0, 3000.0, 2) };
+        let many = rng.chance(1, 8);
+        let spans = 1 + rng.below(if many { 40 } else { 9 }) as i32;
+        let places = if rng.chance(1, 2) { 0 } else { 3 };
+        let start = dec(&mut rng, -5000.0, 300_000.0, places);
+        // a dirty buffer from an abandoned iterator
+        if rng.chance(1, 3) {
+            let mut old = SliderEventsIter::new(0.0, 100.0, 1.0, 10.0, 100.0, 3, &mut buf);
+            for _ in 0..rng.below(6) {
+                old.next();
+            }
+        }
+        let label = format!("events relations start={start} sd={sd} v={v} td={td} len={len} spans={spans}");
+        let r = guarded(&label, || {
+            let evs: Vec<SliderEvent> = SliderEventsIter::new(start, sd, v, td, len, spans, &mut buf).take(200_000).collect();
+            let mut errs: Vec<String> = vec![];
+            let l = len.min(100_000.0);
+            let d0 = td.clamp(0.0, l);
+            let md = v * 10.0;
+            let tol = 1e-9 * l.max(1.0);
+            // the definite and the ambiguous tick distances of one span
+            let (mut sure, mut maybe): (Vec<f64>, Vec<f64>) = (vec![], vec![]);
+            if d0 > 0.0 {
+                let mut k = 1.0;
+                while k * d0 <= l + tol && k < 150_000.0 {
+                    let d = k * d0;
+                    if d < l - md - tol && d <= l - tol {
+                        sure.push(d);
+                    } else if d < l - md + tol && d <= l + tol {
+                        maybe.push(d);
+                    }
+                    k += 1.0;
+                }
+            }
+            let n = evs.len();
+            if n < 3 || evs[0].kind != SliderEventType::Head || evs[n - 1].kind != SliderEventType::Tail || evs[n - 2].kind != SliderEventType::LastTick {
+                errs.push(format!("stream does not have the shape head .. last tick, tail ({n} events)"));
+                return errs;
+            }
+            let h = &evs[0];
+            if h.time != start || h.path_progress != 0.0 || h.span_idx != 0 {
+                errs.push("head".into());
+            }
+            let mut i = 1;
+            for sp in 0..spans {
+                let ss = start + f64::from(sp) * sd;
+                let rev = sp % 2 == 1;
+                let mut got: Vec<&SliderEvent> = vec![];
+                while i < n - 2 && evs[i].kind == SliderEventType::Tick && evs[i].span_idx == sp {
+                    got.push(&evs[i]);
+                    i += 1;
+                }
+                // chronological within the span; distances ascending on forward spans, descending on reversed ones
+                let mut ds: Vec<f64> = got.iter().map(|e| e.path_progress * l).collect();
+                if rev {
+                    ds.reverse();
+                }
+                if ds.windows(2).any(|w| w[1] <= w[0]) || got.windows(2).any(|w| w[1].time < w[0].time) {
+                    errs.push(format!("span {sp}: ticks are not in chronological order"));
+                }
+                // every definite tick is there, every tick there is a definite or an ambiguous one
+                for d in &sure {
+                    if !ds.iter().any(|x| (x - d).abs() <= tol * 10.0) {
+                        errs.push(format!("span {sp}: no tick at distance {d}"));
+                        break;
+                    }
+                }
+                for x in &ds {
+                    if !sure.iter().chain(maybe.iter()).any(|d| (x - d).abs() <= tol * 10.0) {
+                        errs.push(format!("span {sp}: unexpected tick at distance {x} (tick distance {d0}, length {l}, cut-off {})", l - md));
+                        break;
+                    }
+                }
+                for e in &got {
+                    let tp = if rev { 1.0 - e.path_progress } else { e.path_progress };
+                    if !close(e.time, ss + tp * sd) || !close(e.span_start_time, ss) {
+                        errs.push(format!("span {sp}: tick time {} is not span start + progress x duration", e.time));
+                        break;
+                    }
+                }
+                if sp < spans - 1 {
+                    if i >= n - 2 || evs[i].kind != SliderEventType::Repeat {
+                        errs.push(format!("span {sp}: no repeat after its ticks"));
+                        return errs;
+                    }
+                    let e = &evs[i];
+                    if e.span_idx != sp || !close(e.time, ss + sd) || e.path_progress != f64::from((sp + 1) % 2) || !close(e.span_start_time, ss) {
+                        errs.push(format!("span {sp}: repeat has time {} progress {}", e.time, e.path_progress));
+                    }
+                    i += 1;
+                }
+            }
+            if i != n - 2 {
+                errs.push(format!("{} unexpected events before the last tick", n - 2 - i));
+            }
+            let fss = start + f64::from(spans - 1) * sd;
+            let lt = &evs[n - 2];
+            let want_t = (start + f64::from(spans) * sd / 2.0).max(fss + sd - 36.0);
+            let want_p = if sd != 0.0 { let p = (want_t - fss) / sd; if spans % 2 == 0 { 1.0 - p } else { p } } else { f64::NAN };
+            if !close(lt.time, want_t) || lt.span_idx != spans - 1 || !close(lt.span_start_time, fss) || (sd != 0.0 && (lt.path_progress - want_p).abs() > 1e-6) {
+                errs.push(format!("last tick at {} progress {} (expected {want_t}, {want_p})", lt.time, lt.path_progress));
+            }
+            let tl = &evs[n - 1];
+            if !close(tl.time, start + f64::from(spans) * sd) || tl.path_progress != f64::from(spans % 2) || tl.span_idx != spans - 1 || !close(tl.span_start_time, fss) {
+                errs.push(format!("tail at {} progress {}", tl.time, tl.path_progress));
+            }
+            errs
+        });
+        s.cases += 1;
+        s.checks += 1;
+        if td > 0.0 && spans > 1 {
+            s.nontrivial_key(&format!("{it}"));
+        }
+        match r {
+            Err(p) => s.mismatch("panic", json!({"params": label, "panic": p})),
+            Ok(errs) if !errs.is_empty() => s.mismatch("events-real-valued", json!({"params": label, "errors": errs.iter().take(4).collect::<Vec<_>>()})),
+            Ok(_) => {
+                if it < 3 {
+                    s.sample(json!({"params": label}));
+                }
+            }
+        }
+    }
+}
